@@ -38,6 +38,7 @@ registry! {
     "C26" => c26,
     "C27" => c27,
     "C28" => c28,
+    "C32" => c32,
     "C34" => c34,
     "C36" => c36,
     "C37" => c37,
